@@ -1233,6 +1233,10 @@ class Translator:
     def numeric_call(self, d, last, args, kwargs, n):
         if d in ("logging.getLogger", "getLogger"):
             return Opaque("logger")
+        if d in ("functools.partial", "partial") and args:
+            # partial(f, *a, **k): a callable that applies f to the stored and the later arguments
+            f0, a0_, k0_ = args[0], list(args[1:]), dict(kwargs)
+            return PyFunc(lambda *a_, _f=f0, _a=a0_, _k=k0_, **k_: self.apply(_f, _a + list(a_), dict(_k, **k_), n, 0), name="partial")
         if last in ("less", "greater", "less_equal", "greater_equal", "equal", "not_equal") and len(args) == 2 and d.split(".")[0] in ("tf", "np", "tensorflow", "numpy"):
             # functional spelling of a comparison: tf.less(a, b) is a < b
             op_ = {"less": ast.Lt(), "greater": ast.Gt(), "less_equal": ast.LtE(), "greater_equal": ast.GtE(), "equal": ast.Eq(), "not_equal": ast.NotEq()}[last]
